@@ -72,3 +72,7 @@ func vhLitConvert(l *Lit, t xr.Type) (res interface{}, failed bool) {
 	}()
 	return l.Convert(t), false
 }
+
+// rune32or64: identity; spelled as a function so that the conversion string(int64) below is Go's integer -> string
+// conversion on the full 64-bit value (values outside the code point range yield "\uFFFD")
+func rune32or64(i int64) int64 { return i }
